@@ -201,7 +201,7 @@ def run(tier, seed, replay=None):
     build = lib.Build().run()
     rep.proof = lib.compile_props(PID)
     rng = lib.rng_for(seed, PID)
-    n = 100 if tier == 'quick' else 3000
+    n = 100 if tier == 'quick' else 12000
     cases = [gen_history(rng, c) for c in range(n)]
     pairs = []
     for c in range(n // 2):
